@@ -10,6 +10,7 @@ import (
 	"verif/prop/c08"
 	"verif/prop/c09"
 	"verif/prop/c10"
+	"verif/prop/c11"
 	"verif/prop/c12"
 	"verif/prop/c15"
 	"verif/prop/c16"
@@ -33,6 +34,7 @@ var All = map[string]Prop{
 	"C08": {Level: "model_checking", Check: c08.Check, Replay: c08.Replay},
 	"C09": {Level: "model_checking", Check: c09.Check, Replay: c09.Replay},
 	"C10": {Level: "model_checking", Check: c10.Check, Replay: c10.Replay},
+	"C11": {Level: "fault_enumeration", Check: c11.Check, Replay: c11.Replay},
 	"C12": {Level: "model_checking", Check: c12.Check, Replay: c12.Replay},
 	"C15": {Level: "model_checking", Check: c15.Check, Replay: c15.Replay},
 	"C16": {Level: "model_checking", Check: c16.Check, Replay: c16.Replay},
